@@ -83,6 +83,13 @@ def gen_cases(ctx):
                                     if f != "dominated_operations" or not gen.has_zero(c["instance"])]
                                    + gen.CUSTOM_FILTERS)
                 c["filter"] = {"names": [first, gen.HOLDING_FILTER], "form": "custom"}
+        if c["instance"].get("cls") == "huge" and i % 2:
+            # time values beyond 2**53 (not representable in float64 either): the queries are integer
+            # arithmetic all the way
+            for job in c["instance"]["durations"]:
+                for p in range(len(job)):
+                    if job[p] > 2**20:
+                        job[p] += 2**53
         if c.get("filter") and i % 7 == 3 and gen.HOLDING_FILTER not in c["filter"]["names"]:
             # the filter is wrapped by user code that fails once in a while
             c["filter"] = dict(c["filter"], flaky=True)
